@@ -354,4 +354,72 @@ theorem resume_reapplies_bytes (rc : RenderCfg) (sel : Sel) (hk : Known rc ad se
 
 end
 
+/-! ### decidable certificates for the two hypotheses, and non-vacuity on xterm-256color -/
+
+def titlesCert (evs : List Ev) : Bool :=
+  evs.all fun e => match e with
+    | .put (.setTitle t) => t.all fun b => decide (0x20 ≤ b) && decide (b < 0x7f) && b != 36
+    | _ => true
+
+theorem titlesPlain_of_cert (evs : List Ev) (h : titlesCert evs = true) : TitlesPlain evs := by
+  intro t ht b hb
+  have h1 := List.all_eq_true.mp h _ ht
+  have h2 := List.all_eq_true.mp h1 b hb
+  simp only [Bool.and_eq_true, decide_eq_true_eq, bne_iff_ne, ne_eq] at h2
+  exact ⟨h2.1.1, h2.1.2, h2.2⟩
+
+/-- `FramesOk` for a concrete history by evaluation (`ModesB.framesCert`: the bytes of every command of every frame
+    tokenize with the effect Layer A expects) -/
+theorem framesOk_of_cert' (ad : AD) (rc : RenderCfg) (sel : Sel) (evs : List Ev) (h : framesCert rc ad evs = true) :
+    FramesOk ad rc sel evs := framesOk_of_cert rc ad sel evs h
+
+def xterm256 : Terminfo := (Gen.db.find? (fun e => e.name == "xterm-256color")).getD {}
+
+/-- mouse (buttons + motion), paste, focus, a title, a steady-bar cursor, a bold cell, Show; Suspend; mouse requests
+    changed while suspended; Resume; Sync -/
+def histB : List MOp :=
+  [.enableMouse 5, .enablePaste, .enableFocus, .setTitle [116], .scr (.setCursorStyle 6 0),
+   .scr (.showCursor 0 0), .scr (.setContent 0 0 120 [] { attrs := 1 }), .scr .show, .suspend, .disableMouse, .enableMouse 2,
+   .resume, .scr .sync]
+
+set_option maxRecDepth 1000000 in
+theorem xterm256_known : Known (rcOf xterm256) (adOf xterm256) (selOf (rcOf xterm256)) = true := by decide +kernel
+set_option maxRecDepth 100000 in
+theorem xterm256_paired : Paired (adOf xterm256) := paired_of_pairedB _ (by decide +kernel)
+set_option maxRecDepth 1000000 in
+theorem histB_frames : framesCert (rcOf xterm256) (adOf xterm256)
+    (histEvs (adOf xterm256) true true rw1 pay1 false 2 1 (histB ++ [.fini])) = true := by decide +kernel
+set_option maxRecDepth 1000000 in
+theorem histB_titles : titlesCert (histEvs (adOf xterm256) true true rw1 pay1 false 2 1 (histB ++ [.fini])) = true := by
+  decide +kernel
+
+/-- the hypotheses of `modes_restored_bytes` are satisfiable on xterm-256color (both named hypotheses discharged by
+    evaluation), for EVERY emulator start state with default registers -/
+example (t0 : Term) (hst : t0.st = .ground) (ttl : String) (stk : List String) (hm : mr t0 = mr0 ttl stk) :
+    let m1 := mr (t0.feed (histBytes (adOf xterm256) true true rw1 pay1 false (rcOf xterm256) 2 1 (histB ++ [.fini])))
+    m1.alt = false ∧ m1.cv = true ∧ m1.shape = 0 ∧ m1.kpApp = false ∧ m1.ckApp = false ∧ m1.m1000 = false ∧ m1.m1002 = false ∧
+    m1.m1003 = false ∧ m1.m1006 = false ∧ m1.paste = false ∧ m1.focus = false ∧ m1.am = true ∧ m1.tstack = stk := by
+  have h := modes_restored_bytes (adOf xterm256) true true rw1 pay1 false (rcOf xterm256) (selOf (rcOf xterm256)) xterm256_known
+    xterm256_paired 2 1 histB .fini (Or.inr rfl) (by decide)
+    (framesOk_of_cert' _ _ _ _ histB_frames) (titlesPlain_of_cert _ histB_titles) t0 hst ttl stk hm
+  exact ⟨h.2.1, h.2.2.1, h.2.2.2.1, h.2.2.2.2.2.2.1, h.2.2.2.2.2.2.2.1, h.2.2.2.2.2.2.2.2.2.1, h.2.2.2.2.2.2.2.2.2.2.1,
+    h.2.2.2.2.2.2.2.2.2.2.2.1, h.2.2.2.2.2.2.2.2.2.2.2.2.1, h.2.2.2.2.2.2.2.2.2.2.2.2.2.1, h.2.2.2.2.2.2.2.2.2.2.2.2.2.2.1,
+    h.2.2.2.2.2.2.2.2.2.2.2.2.2.2.2.1, h.2.2.2.2.2.2.2.2.2.2.2.2.2.2.2.2.1⟩
+
+/-- the bytes up to and including the first Show / up to and including the Resume, on a concrete 2×1 emulator -/
+def tMid : Term := (Term.init { w := 2, h := 1 }).feed (histBytes (adOf xterm256) true true rw1 pay1 false (rcOf xterm256) 2 1 (histB.take 8))
+def tRes : Term := (Term.init { w := 2, h := 1 }).feed (histBytes (adOf xterm256) true true rw1 pay1 false (rcOf xterm256) 2 1 (histB.take 12))
+
+set_option maxRecDepth 1000000 in
+/-- … and not trivially so: in the middle of that history the modes really are on in the emulator (alternate screen,
+    mouse 1000/1003/1006, paste, focus, keypad + cursor keys application, auto-margin off, steady-bar cursor, two titles
+    saved); after the Resume the mouse mode requested *while suspended* (drag = 1002) is on, 1000/1003 are not -/
+example :
+    (mr tMid).alt = true ∧ (mr tMid).m1000 = true ∧ (mr tMid).m1002 = false ∧ (mr tMid).m1003 = true ∧ (mr tMid).m1006 = true ∧
+    (mr tMid).paste = true ∧ (mr tMid).focus = true ∧ (mr tMid).kpApp = true ∧ (mr tMid).ckApp = true ∧ (mr tMid).am = false ∧
+    (mr tMid).shape = 6 ∧ (mr tMid).tstack.length = 2 ∧ tMid.st = .ground ∧
+    (mr tRes).alt = true ∧ (mr tRes).m1000 = false ∧ (mr tRes).m1002 = true ∧ (mr tRes).m1003 = false ∧ (mr tRes).m1006 = true ∧
+    (mr tRes).paste = true ∧ (mr tRes).focus = true := by
+  decide +kernel
+
 end Tcell.Props.C04
